@@ -13,25 +13,25 @@ open Bifrost Bifrost.SigC
 /-- A `Send` reports success only after an acknowledgement naming exactly its message was
 processed while that message was the pending outgoing one. -/
 theorem send_success_acked (s : State) (h : Reachable s) : sendSuccessAcked s = true := by
-  sorry
+  exact SigClient.sendSuccessAcked_of_inv (SigClient.inv_of_reachable h)
 
 /-- An ack for any other sequence number has no effect at all… -/
 theorem ack_names_its_message (s : State) (k : Nat) (hk : (s.out.map (·.seqno)) ≠ some k) :
     ackMsg s k = s := by
-  sorry
+  simp [ackMsg, hk]
 
 /-- …and neither has a clear for any other sequence number. -/
 theorem clear_names_its_message (s : State) (k : Nat) (hk : (s.recv.map (·.seqno)) ≠ some k) :
     clearMsg s k = s := by
-  sorry
+  simp [clearMsg, hk]
 
 /-- The pending outgoing message is always owned by the `Send` call that submitted it. -/
 theorem out_owned (s : State) (h : Reachable s) : outOwned s = true := by
-  sorry
+  exact SigClient.outOwned_of_inv (SigClient.inv_of_reachable h)
 
 /-- Only messages the application has received are acknowledged (the partner's half of C21). -/
 theorem ack_only_after_delivery (s : State) (h : Reachable s) : acksAreDelivered s = true := by
-  sorry
+  exact SigClient.acksAreDelivered_of_inv (SigClient.inv_of_reachable h)
 
 example : (run [.opened 2, .sendStart ⟨1, 1⟩, .sendStep 1, .txLoop, .ackMsg 7, .sendStep 1]).sends.all (·.result.isNone) = true ∧
     (run [.opened 2, .sendStart ⟨1, 1⟩, .sendStep 1, .txLoop, .ackMsg 1, .sendStep 1]).sends.all (·.result = some true) = true := by
